@@ -197,6 +197,7 @@ struct VecEngine: Engine{
       long budget=600;
       for(size_t s=0;s<n.size()&&out.ok&&budget>0;s++){
         for(long k=1;k<=n[s]&&out.ok&&budget>0;k++,budget--){
+          if(k>8 && k<n[s]) continue;          // operations with dozens of identical allocations (bursts): the first eight and the last one
           RunResult fr;
           if(trace_ops){ printf("FAULT %zu %ld\n",s,k); fflush(stdout); }
           run_once(plan,(int)s,k,false,trace_ops,ctr,fr);
